@@ -92,7 +92,7 @@ def accept_titan(draw):
 
 CORRUPTIONS = ["scheme-other", "no-slashes", "no-scheme", "empty-host", "userinfo", "fragment", "bad-utf8",
                "too-long-crlf", "too-long-nocrlf", "titan-nosize", "titan-badsize", "titan-negsize", "titan-noparams",
-               "titan-userinfo", "titan-fragment", "long-iri-fragment", "long-iri-userinfo"]
+               "titan-userinfo", "titan-fragment", "long-iri-fragment", "long-iri-userinfo", "invisible-prefix"]
 
 
 @st.composite
@@ -157,6 +157,12 @@ def reject_line(draw):
             body = ch * k
             fill = n - len(head) - len(tail) - len(body.encode())
             raw = (head + body + "a" * fill + tail).encode()
+        elif c == "invisible-prefix":
+            # a character that is no part of a scheme name in front of an otherwise valid URL (byte order mark, zero-width
+            # space, no-break space): the line is not an absolute gemini:// or titan:// URL
+            pre = draw(st.sampled_from(["\ufeff", "\u200b", "\u00a0", "\ufeff\ufeff"]))
+            sch = draw(st.sampled_from(["gemini", "titan"]))
+            raw = (pre + f"{sch}://example.org/f.txt" + (";size=3" if sch == "titan" else "")).encode()
         elif c in ("too-long-crlf", "too-long-nocrlf"):
             n = draw(st.one_of(st.integers(1025, 1030), st.integers(1031, 3000)))
             pu = urlgen.pad_path(u, n)
@@ -176,7 +182,7 @@ def reject_line(draw):
             return draw(reject_line())
     followup = draw(st.sampled_from(["", "", "gemini://example.org/second\r\n", "titan://example.org/late.gmi;size=4\r\nDATA"]))
     return {"cls": "reject", "kind": "titan" if c.startswith("titan") else "gemini", "line": b2s(raw), "crlf": crlf,
-            "content": "abc" if c in ("titan-userinfo", "titan-fragment") else "", "corruption": c, "labels": [c] + (["followup"] if followup else []), "uploads": uploads, "raw": True,
+            "content": "abc" if c in ("titan-userinfo", "titan-fragment", "invisible-prefix") else "", "corruption": c, "labels": [c] + (["followup"] if followup else []), "uploads": uploads, "raw": True,
             "followup": followup}
 
 
